@@ -559,11 +559,13 @@ def parser_case(draw, **kw):
     touched = set()
     plain = [c for c in spec["columns"] if not c.get("regex") and c["name"] in tcs]
     nops = draw(st.integers(1, 3))
+    # (rare shape: when the pair has a MultiIndex on both sides, try the MultiIndex operation first half of the time)
+    first = ["mi-coerce"] if spec.get("index") and "multi" in spec["index"] and draw(st.booleans()) else []
     for _attempt in range(nops + 5):
         if len(opts) >= nops:
             break
-        op = draw(st.sampled_from(["coerce", "coerce", "coerce-bad", "default", "add_missing", "filter", "drop", "index-coerce",
-                                   "schema-coerce", "parser", "parser"]))
+        op = first.pop() if first else draw(st.sampled_from(["coerce", "coerce", "coerce-bad", "default", "add_missing", "filter", "drop", "index-coerce",
+                                   "schema-coerce", "parser", "parser", "mi-coerce"]))
         if op in ("coerce", "coerce-bad", "schema-coerce") and plain:
             c = draw(st.sampled_from(plain))
             if c.get("dtype") in (None, "object") or c["name"] in touched:
@@ -658,6 +660,25 @@ def parser_case(draw, **kw):
             spec["drop_invalid_rows"] = True
             _uniquify_index(table)
             opts.append(op)
+        elif op == "mi-coerce" and spec.get("index") and "multi" in spec["index"] and table.get("index") \
+                and "multi" in table["index"] and "mi-coerce" not in opts:
+            # a conforming MultiIndex whose schema lists the (named) levels in another order than the data, coercion on:
+            # every level already has its type, so coercion must hand the index back as it is
+            sl, tl = spec["index"]["multi"], table["index"]["multi"]
+            names = [l.get("name") for l in tl]
+            if len(sl) >= 2 and len(sl) == len(tl) and None not in names and len(set(names)) == len(names) \
+                    and [l.get("name") for l in sl] == names \
+                    and all(l.get("dtype") == t["phys"] or (l.get("dtype") == "str" and t["phys"] == "object"
+                                                            and all(isinstance(c, str) for c in t["cells"]))
+                            for l, t in zip(sl, tl)):
+                spec["index"]["multi"] = list(reversed(sl))
+                spec["index"]["ordered"] = False
+                if draw(st.booleans()):
+                    spec["index"]["coerce"] = True
+                else:
+                    for l in spec["index"]["multi"]:
+                        l["coerce"] = True
+                opts.append(op)
         elif op == "index-coerce" and spec.get("index") and "multi" not in spec["index"] and table.get("index") \
                 and "multi" not in table["index"]:
             ixs, ixt = spec["index"], table["index"]
